@@ -282,7 +282,7 @@ func init() {
 	registerRule("K23", "a deferred call of a download function only releases: no function deferred in client code reads from a response body (io.Copy, io.ReadAll, Read) — the error already decided would wait for a body that may never end", ruleK23)
 	registerRule("F57", "a whole segment carries its own date: where a segmentData is built from the result of downloadSegment, its dateTime is the DateTime field of the very segment whose URI was downloaded, read directly", ruleF57)
 	registerRule("F6b", "the payload is the caller's: the access unit handed to fmp4's Fill* functions by the segmenter's writers is the writer's own payload parameter, not a rebuilt list", ruleF6b)
-	registerRule("F8e", "the MPEG-TS join covers every track: joinTrackProcessors ranges over the trackProcessors map both to push the end marker and to collect the completions", ruleF8e)
+	registerRule("F8e", "the MPEG-TS join covers every track: joinTrackProcessors pushes the end marker to the iteration variable of a range over the trackProcessors map", ruleF8e)
 	registerRule("T34", "a byte range is printed with the start it has: in the encoders of pkg/playlist the Start of a primitives.ByteRange is the element's own ByteRangeStart field, read directly", ruleT34)
 	registerRule("F7x", "the download mode is chosen once: runTraditional and runLowLatency are called by the downloader's run only (a fallback from one to the other restarts from the first playlist of the session)", ruleF7x)
 	registerRule("K5c", "a failed initialisation is fatal: where client code tests the error of one of its initialize… functions, every path from the failing side to a return returns a non-nil error", ruleK5c)
@@ -622,8 +622,9 @@ func ruleF8e(c *Ctx) *RuleResult {
 	switch {
 	case pushes == 0:
 		r.undecided("F8e: no push found in the MPEG-TS joinTrackProcessors")
-	case pushesInRange == pushes && ranges >= 2:
-		r.ok(key, c.Pos(fn.Pos()), FuncName(fn), what, "marker pushed and completion collected per entry of trackProcessors")
+	case pushesInRange == pushes && ranges >= 1:
+		// how the completions are counted (a second range, a loop up to len(trackProcessors)) is left to K6/F8c
+		r.ok(key, c.Pos(fn.Pos()), FuncName(fn), what, "the end marker is pushed to every entry of trackProcessors")
 	case pushesInRange != pushes:
 		r.fail(key, c.Pos(fn.Pos()), FuncName(fn), what, "the end marker is pushed to a track processor that is not the iteration variable of a range over trackProcessors: the other tracks are not joined, their last units are cut off when the stream ends")
 	default:
@@ -1043,6 +1044,82 @@ func ruleP10(c *Ctx) *RuleResult {
 			r.ok(key, c.Pos(call.Pos()), FuncName(fn), what, "the failing side empties the slots of the streams already handled before it returns")
 		} else {
 			r.fail(key, c.Pos(call.Pos()), FuncName(fn), what, "the failing side returns with the streams handled so far left open (finding 23): the leading stream keeps its segment, so createFirstSegment is never called again, and the next rotation dereferences the nil open part of the stream that failed — a panic inside Write with the muxer mutex held")
+		}
+	}
+	r.Instances = n
+	return r
+}
+
+// ---------------------------------------------------------------------------
+
+func init() {
+	registerRule("P6c", "an open segment is moved or closed, never just forgotten: where muxer code stores nil into the open-segment slot, the function has first read the slot into a value that it hands on (a call on or with it — close, finalize —, a store, an append, a return)", ruleP6c)
+}
+
+func ruleP6c(c *Ctx) *RuleResult {
+	r := &RuleResult{Floor: 1, FloorWhat: "nil stores into the open-segment slot"}
+	slot := c.Field("", "muxerStream", "nextSegment")
+	if slot == nil {
+		r.undecided("muxerStream.nextSegment not found")
+		return r
+	}
+	var handedOn func(v ssa.Value, d int) bool
+	handedOn = func(v ssa.Value, d int) bool {
+		if d > 3 || v.Referrers() == nil {
+			return false
+		}
+		for _, ref := range *v.Referrers() {
+			switch x := ref.(type) {
+			case ssa.CallInstruction:
+				return true
+			case *ssa.Store:
+				if x.Val == v {
+					return true
+				}
+			case *ssa.Return:
+				return true
+			case *ssa.TypeAssert, *ssa.ChangeInterface, *ssa.MakeInterface, *ssa.Phi, *ssa.Extract:
+				if handedOn(x.(ssa.Value), d+1) {
+					return true
+				}
+			}
+		}
+		return false
+	}
+	n := 0
+	for _, fn := range c.Funcs {
+		if !InRootPkg(fn) || fn.Blocks == nil || isClientFunc(enclosingNamed(fn)) {
+			continue
+		}
+		for _, st := range storesToField(c, fn, slot) {
+			k, isK := st.Val.(*ssa.Const)
+			if !isK || !k.IsNil() {
+				continue
+			}
+			n++
+			key := fmt.Sprintf("%s|empty-slot#%d", FuncName(fn), n)
+			what := "every file the muxer created is released: the segment that leaves the open slot is still owned by somebody who closes it"
+			ok := false
+			allInstrs(fn, func(in ssa.Instruction) {
+				u, isU := in.(*ssa.UnOp)
+				if !isU || u.Op != token.MUL {
+					return
+				}
+				if f, _ := fieldOfAddr(u.X); f != slot {
+					return
+				}
+				if !(instrReaches(u, st) || (u.Block() == st.Block() && instrIndex(u) < instrIndex(st))) {
+					return
+				}
+				if handedOn(u, 0) {
+					ok = true
+				}
+			})
+			if ok {
+				r.ok(key, c.Pos(st.Pos()), FuncName(fn), what, "the slot's segment is read and handed on before the slot is emptied")
+			} else {
+				r.fail(key, c.Pos(st.Pos()), FuncName(fn), what, "the slot is emptied without its segment having been read into anything: the segment (and the file it created in Directory) is unreachable from here on — nothing closes it, not even Close")
+			}
 		}
 	}
 	r.Instances = n
